@@ -139,7 +139,7 @@ def make_replay(prop, rec, o, outdir, verif, repo, scratch):
                                                         s.get('sourceLocation', {}).get('function'), s.get('sourceLocation', {}).get('line')))
             elif s.get('stepType') == 'failure':
                 trace_txt.append('FAILURE: %s at %s:%s' % (s.get('reason'), s.get('sourceLocation', {}).get('file'), s.get('sourceLocation', {}).get('line')))
-    if spec and tr:
+    if spec and (tr or spec.get('search')):
         vals = harness_inputs(tr, set(spec.get('inputs', [])))
         missing = [n for n in spec.get('inputs', []) if n not in vals]
         defines = {'IN_' + re.sub(r'\W', '_', k): '(%s)' % v for k, v in vals.items()}
@@ -159,7 +159,7 @@ def make_replay(prop, rec, o, outdir, verif, repo, scratch):
                 native = 'REPRODUCED against the real code (exit status %s):\n%s' % (rc, out)
             else:
                 native = 'native run satisfies the postcondition on this input (abstract-state or model counterexample):\n' + out
-    elif spec and not tr:
+    elif spec and not tr and not spec.get('search'):
         native = 'CBMC gave no trace for this obligation: no-failing-input-found'
     with open(path, 'w') as f:
         f.write('# replay file written by bin/check; re-run with: bin/check %s --replay %s\n' % (prop, path))
